@@ -17,9 +17,71 @@ Theorem C01_inflight_le_cap :
 Proof. exact inflight_le_cap. Qed.
 Print Assumptions C01_inflight_le_cap.
 
-(* a request that has not been admitted (never polled, or still waiting) is not inside *)
+(* a request that has not been admitted (never polled, or still waiting) is not inside:
+   the whole invariant (Proof/Bulkhead.v: G = permit conservation and list discipline,
+   Cj = per-caller state vs. lists and ghosts); its readable consequence is the next theorem *)
 Theorem C01_only_admitted_enter :
   forall (c : cfg) (evs : list ev),
     Forall (Inv c) (states (step_st c) (init c) evs).
 Proof. exact reach_Inv. Qed.
 Print Assumptions C01_only_admitted_enter.
+
+(* ... in readable form: in every reachable state a caller's request has reached the inner
+   service (ghost [entered], set only where the model starts the inner call) only if the
+   caller was admitted (it is Running, or finished, or was dropped -- never Created or
+   waiting), every Running caller's request has, and the running list is exactly the Running
+   callers *)
+Theorem C01_entered_iff_admitted :
+  forall (c : cfg) (evs : list ev),
+    Forall (fun s => forall j,
+              (cs s j = Running -> entered s j = true /\ In j (running s)) /\
+              (entered s j = true -> cs s j = Running \/ cs s j = Done \/ cs s j = Dropped) /\
+              (In j (running s) -> cs s j = Running))
+           (states (step_st c) (init c) evs).
+Proof. exact entered_iff_admitted. Qed.
+Print Assumptions C01_entered_iff_admitted.
+
+(* "at every instant", also INSIDE a poll: the in-flight count the inner service sees when
+   a call is started (the intermediate state in which the caller already runs; the same poll
+   may take it out again when its gate is already complete) is at most cap, and it counts
+   the new call *)
+Theorem C01_seen_le_cap :
+  forall (c : cfg) (s : st) (i : nat),
+    Inv c s -> 0 <= seen (snd (poll c s i)) <= Z.of_nat (cap c).
+Proof. exact seen_le_cap. Qed.
+Print Assumptions C01_seen_le_cap.
+
+Theorem C01_seen_counts_the_new_call :
+  forall (c : cfg) (s : st) (i : nat),
+    Inv c s -> started (snd (poll c s i)) = true ->
+    seen (snd (poll c s i)) = Z.of_nat (S (length (running s))).
+Proof. exact seen_counts_the_new_call. Qed.
+Print Assumptions C01_seen_counts_the_new_call.
+
+(* the count is the property's count: "requests that have entered and have not yet finished,
+   failed, panicked or been dropped", computed from the OBSERVATIONS of the run alone
+   ([inside]: +i at a poll of i that started an inner call, -i at a poll of i that returned
+   Ok / Err(Inner) / panicked, -i at a drop of i), is the model's running list after every
+   history, hence at most cap and duplicate-free *)
+Theorem C01_running_is_history :
+  forall (c : cfg) (evs : list ev),
+    running (fold_left (step_st c) evs (init c)) = inside (history c evs).
+Proof. exact running_is_history. Qed.
+Print Assumptions C01_running_is_history.
+
+Theorem C01_history_count_le_cap :
+  forall (c : cfg) (evs : list ev),
+    (length (inside (history c evs)) <= cap c)%nat /\ NoDup (inside (history c evs)).
+Proof. exact history_count_le_cap. Qed.
+Print Assumptions C01_history_count_le_cap.
+
+(* the statement about run_script, the function whose output bin/check compares with the
+   implementation's trace: for EVERY script, in every row the in-flight count after the event
+   (column 4) and the count seen by the inner service at a start (column 2) are within 0..cap *)
+Theorem C01_trace_inflight_and_seen_le_cap :
+  forall (sc : list Z),
+    let capz := Z.of_nat (cap (cfg_of sc)) in
+    Forall (fun x => 0 <= x <= capz) (col6 4 (run_script sc)) /\
+    Forall (fun x => 0 <= x <= capz) (col6 2 (run_script sc)).
+Proof. exact trace_inflight_and_seen_le_cap. Qed.
+Print Assumptions C01_trace_inflight_and_seen_le_cap.
